@@ -1360,8 +1360,12 @@ class TTNS(TTNBase):
             new_node.tensor = np.zeros(new_shape, dtype=dtype)
             indices1 = tuple(indices1)
             indices2 = tuple(indices2)
-            new_node.tensor[indices1] = node1.tensor
-            new_node.tensor[indices2] = node2.tensor
+            if indices1 == indices2:
+                # a tree of a single node has no virtual index to take the direct sum over
+                new_node.tensor = node1.tensor + node2.tensor
+            else:
+                new_node.tensor[indices1] = node1.tensor
+                new_node.tensor[indices2] = node2.tensor
             if node1 is self.root:
                 np.testing.assert_allclose(node1.qn, node2.qn)
                 new_node.qn = node1.qn.copy()
